@@ -413,4 +413,10 @@ def r9_10(ctx):
     borrow(ctx, r8_10, "R8.10", "R9.10", " [Bar reports (width, width) clamped by the available width; rendering must clamp the same way]")
 
 
-RULES = [r9_1, r9_2, r9_3, r9_4, r9_5, r9_6, r9_7, r9_8, r9_9, r9_10]
+def r9_11(ctx):
+    from .c08 import r8_17
+    from .common import borrow
+    borrow(ctx, r8_17, "R8.17", "R9.11", " [Panel.__rich_measure__ reports the title's cell length: it must be the length of what is drawn]")
+
+
+RULES = [r9_1, r9_2, r9_3, r9_4, r9_5, r9_6, r9_7, r9_8, r9_9, r9_10, r9_11]
